@@ -140,6 +140,32 @@ def readDoc (ver : Ver) (l : List Nat) : Option XNode :=
     | _ => none
   | _ => none
 
+/-! ## the prolog: XML declaration and document type declaration (skipped, as a non-validating parser reports neither) -/
+
+def dropLF : List Nat → List Nat
+  | 10 :: r => r
+  | l => l
+
+/-- `<?xml … ?>` at the very beginning -/
+def stripXmlDecl (l : List Nat) : List Nat :=
+  if l.take 6 = [60, 63, 120, 109, 108, 32] then
+    match splitPIEnd (l.drop 2) with
+    | some (_, r) => r
+    | none => l
+  else l
+
+def dropThroughGt : List Nat → List Nat
+  | [] => []
+  | c :: r => if c = 62 then r else dropThroughGt r
+
+/-- `<!DOCTYPE … >` without an internal subset -/
+def stripDoctype (l : List Nat) : List Nat :=
+  if l.take 9 = [60, 33, 68, 79, 67, 84, 89, 80, 69] then dropLF (dropThroughGt l) else l
+
+/-- a whole document entity: optional XML declaration, optional DOCTYPE, root element -/
+def readDocument (ver : Ver) (l : List Nat) : Option XNode :=
+  readDoc ver (stripDoctype (dropLF (stripXmlDecl l)))
+
 mutual
 /-- what a parser reports for a tree: CDATA sections are text -/
 def norm : XNode → XNode
